@@ -35,6 +35,8 @@ Record stream := {
   infb : bool;             (* inFallbackState *)
   sendb : list Z; sheap : bool;
   recvb : list rslice; cpin : bool; pinned : list Z;
+  scpin : bool;            (* currentPinned of the linkedBuffer object that is the SEND buffer now (the two buffer objects are swapped by ReleaseReadAndReuse and keep their flags) *)
+  rheap : bool;            (* isFromShm = false of the linkedBuffer object that is the RECEIVE buffer now *)
   pend : list pentry }.
 
 Record qelem := { q_sid : nat; q_chain : list (Z * Z); q_closed : bool }.
@@ -65,10 +67,10 @@ Inductive label :=
 
 Definition dead_stream : stream :=
   {| alive := false; half := false; infb := false; sendb := []; sheap := false;
-     recvb := []; cpin := false; pinned := []; pend := [] |}.
+     recvb := []; cpin := false; pinned := []; scpin := false; rheap := false; pend := [] |}.
 Definition fresh_stream : stream :=
   {| alive := true; half := false; infb := false; sendb := []; sheap := false;
-     recvb := []; cpin := false; pinned := []; pend := [] |}.
+     recvb := []; cpin := false; pinned := []; scpin := false; rheap := false; pend := [] |}.
 
 Definition init (f : bool) (n : nat) (qc : Z) : st :=
   {| fx := f; nslots := n; qcap := qc; free := map Z.of_nat (seq 0 n); ext := []; leaked := [];
@@ -124,12 +126,12 @@ Definition deliver_data (e : bool) (sid : nat) (p : pentry) (s : st) : st :=
   let v := streams s k in
   if alive v then
     set_stream k {| alive := true; half := half v; infb := infb v; sendb := sendb v; sheap := sheap v;
-                    recvb := recvb v; cpin := cpin v; pinned := pinned v; pend := pend v ++ [p] |} s
+                    recvb := recvb v; cpin := cpin v; pinned := pinned v; scpin := scpin v; rheap := rheap v; pend := pend v ++ [p] |} s
   else if e then
     (* a NEW stream object is accepted; the closed one holds nothing any more (Proofs: dead_empty), so
        keeping its (empty) lists is the same thing and keeps every slot accounted for by construction *)
     set_stream k {| alive := true; half := false; infb := false; sendb := sendb v; sheap := sheap v;
-                    recvb := recvb v; cpin := false; pinned := pinned v; pend := pend v ++ [p] |} s
+                    recvb := recvb v; cpin := false; pinned := pinned v; scpin := false; rheap := false; pend := pend v ++ [p] |} s
   else
     (* protocol_manager.go: unknown stream -> recycleBuffers *)
     add_free (pslots [p]) s.
@@ -139,7 +141,7 @@ Definition deliver_close (e : bool) (sid : nat) (s : st) : st :=
   let v := streams s k in
   if alive v then
     set_stream k {| alive := true; half := true; infb := infb v; sendb := sendb v; sheap := sheap v;
-                    recvb := recvb v; cpin := cpin v; pinned := pinned v; pend := pend v |} s
+                    recvb := recvb v; cpin := cpin v; pinned := pinned v; scpin := scpin v; rheap := rheap v; pend := pend v |} s
   else s.
 
 Definition deliver (e : bool) (s : st) (q : qelem) : st :=
@@ -157,7 +159,7 @@ Definition do_write (e : bool) (sid : nat) (new : list Z) (heap : bool) (s : st)
   if negb (alive v) then None                                     (* only live streams are written to *)
   else if negb (subsetb new (free s) && nodupb new) then None      (* the allocator handed out a slot that is not free *)
   else Some (set_stream k {| alive := alive v; half := half v; infb := infb v; sendb := sendb v ++ new;
-                             sheap := sheap v || heap; recvb := recvb v; cpin := cpin v; pinned := pinned v; pend := pend v |}
+                             sheap := sheap v || heap; recvb := recvb v; cpin := cpin v; pinned := pinned v; scpin := scpin v; rheap := rheap v; pend := pend v |}
                (set_free_ext (minus_list (free s) new) (ext s) s)).
 
 (* pair every slice with its byte count (missing counts are 0): no slice is dropped *)
@@ -167,9 +169,10 @@ Fixpoint zip_pad (l : list Z) (sz : list Z) : list (Z * Z) :=
   | x :: t => match sz with [] => (x, 0) :: zip_pad t [] | b :: r => (x, b) :: zip_pad t r end
   end.
 
+(* the send buffer has been cleaned (linkedBuffer.clean: isFromShm = true, currentPinned = false) *)
 Definition with_send (v : stream) (fb : bool) : stream :=
   {| alive := alive v; half := half v; infb := fb; sendb := []; sheap := false;
-     recvb := recvb v; cpin := cpin v; pinned := pinned v; pend := pend v |}.
+     recvb := recvb v; cpin := cpin v; pinned := pinned v; scpin := false; rheap := rheap v; pend := pend v |}.
 
 Definition do_flush (e : bool) (sid : nat) (sizes : list Z) (wpos : nat) (s : st) : st :=
   let k := key e sid in
@@ -192,6 +195,7 @@ Definition do_flush (e : bool) (sid : nat) (sizes : list Z) (wpos : nat) (s : st
       set_queue (negb e) (queue_to (negb e) s ++ [{| q_sid := sid; q_chain := zip_pad used sizes; q_closed := false |}]) s1.
 
 (* ---- reading ---- *)
+Definition is_pfb (p : pentry) : bool := match p with PFb _ => true | PShm _ => false end.
 Definition move_entry (p : pentry) (acc : list rslice * list Z * bool) : list rslice * list Z * bool :=
   let '(r, fr, fb) := acc in
   match p with
@@ -257,7 +261,8 @@ Definition do_read (e : bool) (sid : nat) (kind : rkind) (k : Z) (s : st) : st :
   let r1 := if (0 <? k) && (k <=? total) then do_read_kind kind k r0 else r0 in
   add_free (fr0 ++ r_free r1)
     (set_stream key_ {| alive := alive v; half := half v; infb := fb; sendb := sendb v; sheap := sheap v;
-                        recvb := r_buf r1; cpin := r_cpin r1; pinned := r_pin r1; pend := [] |} s).
+                        recvb := r_buf r1; cpin := r_cpin r1; pinned := r_pin r1; scpin := scpin v;
+                        rheap := rheap v || existsb is_pfb (pend v); pend := [] |} s).
 
 (* ReleasePreviousRead *)
 Definition do_release (e : bool) (sid : nat) (s : st) : st :=
@@ -269,13 +274,13 @@ Definition do_release (e : bool) (sid : nat) (s : st) : st :=
   | [a] => if rs_bytes a =? 0
            then add_free (pinned v ++ rslots [a])
                   (set_stream k {| alive := alive v; half := half v; infb := infb v; sendb := sendb v; sheap := sheap v;
-                                   recvb := []; cpin := cp; pinned := []; pend := pend v |} s)
+                                   recvb := []; cpin := cp; pinned := []; scpin := scpin v; rheap := rheap v; pend := pend v |} s)
            else add_free (pinned v)
                   (set_stream k {| alive := alive v; half := half v; infb := infb v; sendb := sendb v; sheap := sheap v;
-                                   recvb := recvb v; cpin := cp; pinned := []; pend := pend v |} s)
+                                   recvb := recvb v; cpin := cp; pinned := []; scpin := scpin v; rheap := rheap v; pend := pend v |} s)
   | _ => add_free (pinned v)
            (set_stream k {| alive := alive v; half := half v; infb := infb v; sendb := sendb v; sheap := sheap v;
-                            recvb := recvb v; cpin := cp; pinned := []; pend := pend v |} s)
+                            recvb := recvb v; cpin := cp; pinned := []; scpin := scpin v; rheap := rheap v; pend := pend v |} s)
   end.
 
 (* Stream.reset + ReleaseReadAndReuse (what the pool does on PutBack): the fully read last receive
@@ -289,16 +294,17 @@ Definition do_reuse (e : bool) (sid : nat) (s : st) : st :=
   let cp := match pinned v with [] => cpin v | _ => false end in
   match recvb v with
   | [a] => match rs_slot a with
-           | Some x => add_free (pinned v)
-                         (set_stream k {| alive := alive v; half := half v; infb := false; sendb := [x]; sheap := false;
-                                          recvb := []; cpin := cp; pinned := []; pend := [] |} s)
+           | Some x => (* the two linkedBuffer OBJECTS are swapped: each keeps its currentPinned and isFromShm flags *)
+                       add_free (pinned v)
+                         (set_stream k {| alive := alive v; half := half v; infb := false; sendb := [x]; sheap := rheap v;
+                                          recvb := []; cpin := scpin v; pinned := []; scpin := cp; rheap := sheap v; pend := [] |} s)
            | None => add_free (pinned v)
                          (set_stream k {| alive := alive v; half := half v; infb := false; sendb := []; sheap := sheap v;
-                                          recvb := []; cpin := cp; pinned := []; pend := [] |} s)
+                                          recvb := []; cpin := cp; pinned := []; scpin := scpin v; rheap := rheap v; pend := [] |} s)
            end
   | _ => add_free (pinned v)
            (set_stream k {| alive := alive v; half := half v; infb := false; sendb := sendb v; sheap := sheap v;
-                            recvb := recvb v; cpin := cp; pinned := []; pend := pend v |} s)
+                            recvb := recvb v; cpin := cp; pinned := []; scpin := scpin v; rheap := rheap v; pend := pend v |} s)
   end.
 
 (* Stream.Close -> clean(): pendingData.clear, recvBuf.recycle, sendBuf.recycle; the pinned list is
@@ -308,7 +314,7 @@ Definition do_close (e : bool) (sid : nat) (s : st) : st :=
   let v := streams s k in
   if negb (alive v) then s else
   let s1 := set_stream k {| alive := false; half := half v; infb := infb v; sendb := []; sheap := false;
-                            recvb := []; cpin := false; pinned := []; pend := [] |} s in
+                            recvb := []; cpin := false; pinned := []; scpin := false; rheap := false; pend := [] |} s in
   let s2 := add_free (pslots (pend v) ++ rslots (recvb v) ++ sendb v) s1 in
   let s3 := if fx s then add_free (pinned v) s2 else add_leaked (pinned v) s2 in
   if half v then s3                                              (* no notification when the peer closed first *)
